@@ -48,7 +48,7 @@ fn check_visible(what: &str, consumer: &owning_iovec::ConsumingIovec<'_>, expect
     let mut owned: Vec<(usize, usize)> = vec![];
     for (k, s) in consumer.stable_prefix().iter().enumerate() {
         let start = s.as_ptr() as usize;
-        if classify_range(start, s.len(), lent, &format!("{what} slice {k}"))? {
+        if classify_range(start, s.len(), lent, &|| format!("{what} slice {k}"))? {
             owned.push((start, start + s.len()));
         }
         if off + s.len() > expected.len() || expected[off..off + s.len()] != **s {
@@ -212,12 +212,20 @@ pub fn check_chunker(case: &StreamCase) -> CaseResult {
         let mut held: Vec<(AnchoredSlice, usize, usize)> = vec![]; // slice, start, end in the stream
         let mut q = 0usize;
         let mut retired_midway = false;
+        let passes = std::cell::Cell::new(0usize);
         let verify = |held: &Vec<(AnchoredSlice, usize, usize)>| -> Result<(), Fail> {
+            let registry = iovec_sm::Registry::snapshot();
+            let pass = passes.get();
+            passes.set(pass + 1);
             let mut ranges = vec![];
             for (k, (s, start, end)) in held.iter().enumerate() {
+                // With hundreds of chunks held, re-verify the newest ones and a rotating sample every time.
+                if held.len() > 64 && k + 8 < held.len() && (k + pass) % (held.len() / 32) != 0 {
+                    continue;
+                }
                 let b = s.slice();
                 let addr = b.as_ptr() as usize;
-                if classify_range(addr, b.len(), &lent, &format!("held Data chunk {k}"))? {
+                if registry.classify(addr, b.len(), &lent, &|| format!("held Data chunk {k}"))? {
                     ranges.push((addr, addr + b.len()));
                 }
                 if *b != stream[*start..*end] {
@@ -261,10 +269,15 @@ pub fn check_chunker(case: &StreamCase) -> CaseResult {
         verify(&held)?;
         let n_held = held.len();
         let mut order = case.drop_order.iter();
+        let mut removed = 0usize;
         while !held.is_empty() {
             let i = order.next().copied().unwrap_or(0) as usize % held.len();
-            held.remove(i);
-            verify(&held)?;
+            // (swap_remove: the order in which the survivors are listed does not matter)
+            held.swap_remove(i);
+            removed += 1;
+            if held.len() <= 64 || removed % 16 == 0 {
+                verify(&held)?;
+            }
         }
         Ok(Outcome::new(retired_midway || n_held >= 3)
             .label_if(retired_midway, "chunk_released_while_data_held")
@@ -286,11 +299,18 @@ pub fn check_reader(case: &StreamCase) -> CaseResult {
         let mut kept: Vec<(OwningIovec<'static>, Vec<u8>)> = vec![];
         let mut records = 0usize;
         let mut retired_midway = false;
+        let passes = std::cell::Cell::new(0usize);
         let verify = |kept: &Vec<(OwningIovec<'static>, Vec<u8>)>| -> Result<(), Fail> {
+            let registry = iovec_sm::Registry::snapshot();
+            let pass = passes.get();
+            passes.set(pass + 1);
             for (k, (io, want)) in kept.iter().enumerate() {
+                if kept.len() > 64 && k + 8 < kept.len() && (k + pass) % (kept.len() / 32) != 0 {
+                    continue;
+                }
                 let mut got = vec![];
                 for (j, s) in io.stable_prefix().iter().enumerate() {
-                    classify_range(s.as_ptr() as usize, s.len(), &lent, &format!("kept clone of record {k}, slice {j}"))?;
+                    registry.classify(s.as_ptr() as usize, s.len(), &lent, &|| format!("kept clone of record {k}, slice {j}"))?;
                     got.extend_from_slice(s);
                 }
                 if got != *want {
@@ -311,7 +331,7 @@ pub fn check_reader(case: &StreamCase) -> CaseResult {
                 .map_err(|e| Fail::new("reader:wrong-record", format!("returned range {range:?} is not a valid record ({e:?})")))?;
             let mut got = vec![];
             for (j, s) in iovec.stable_prefix().iter().enumerate() {
-                classify_range(s.as_ptr() as usize, s.len(), &lent, &format!("record {records}, slice {j}"))?;
+                classify_range(s.as_ptr() as usize, s.len(), &lent, &|| format!("record {records}, slice {j}"))?;
                 got.extend_from_slice(s);
             }
             if got != want {
@@ -329,10 +349,14 @@ pub fn check_reader(case: &StreamCase) -> CaseResult {
         verify(&kept)?;
         let n_kept = kept.len();
         let mut order = case.drop_order.iter();
+        let mut removed = 0usize;
         while !kept.is_empty() {
             let i = order.next().copied().unwrap_or(0) as usize % kept.len();
-            kept.remove(i);
-            verify(&kept)?;
+            kept.swap_remove(i);
+            removed += 1;
+            if kept.len() <= 64 || removed % 16 == 0 {
+                verify(&kept)?;
+            }
         }
         Ok(Outcome::new(n_kept >= 1 && records >= 2)
             .label_if(retired_midway, "chunk_released_between_records")
